@@ -56,3 +56,4 @@ int cmd_json(int, char**);
 int cmd_promela(int, char**);
 int cmd_lua(int, char**);
 int cmd_tables(int, char**);
+int cmd_validate(int, char**);
